@@ -125,7 +125,7 @@ class Run:
             if sha in seen:
                 continue
             seen.add(sha)
-            d = os.path.join(VERIF, "replays", self.prop)
+            d = os.path.join(os.environ.get("VERIF_REPLAY_DIR") or os.path.join(VERIF, "replays"), self.prop)
             os.makedirs(d, exist_ok=True)
             path = os.path.join(d, sha + ".json")
             with open(path, "w") as fh:
@@ -147,8 +147,9 @@ class Run:
         }
         cov.update(self.extra)
         ev = {"property_id": self.prop, "tier": self.tier, "seed": SEED, "level": self.level, "coverage": cov, "wall_s": round(wall, 2)}
-        os.makedirs(os.path.join(VERIF, "evidence"), exist_ok=True)
-        with open(os.path.join(VERIF, "evidence", self.prop + ".json"), "w") as fh:
+        evdir = os.environ.get("VERIF_EVIDENCE_DIR") or os.path.join(VERIF, "evidence")
+        os.makedirs(evdir, exist_ok=True)
+        with open(os.path.join(evdir, self.prop + ".json"), "w") as fh:
             json.dump(ev, fh, indent=1, default=str)
         if self.states < 1 or self.transitions < 1:
             die(f"{self.prop}: no TLC states recorded - vacuous run")
